@@ -8,7 +8,7 @@ non-seekable stream; any number of body rewinds.
 -/
 import S3V.Model.Upload
 import S3V.Props.C09
-import S3V.Props.C14
+import S3V.Props.C14Base
 
 namespace S3V.C01
 open S3V.Upload
